@@ -149,3 +149,72 @@ func runAdmitIdleScenario(col *trace.Collector) (hooks []verifhook.Record, viol 
 
 	return nil, viol, ""
 }
+
+// runAdmitLastPeerScenario (C11): the node's ONLY neighbour is established and routed to, then disagrees about the
+// link cost (variant 0) or simply goes away (variant 1). Admit.tla NoEdgeLeftBehind: the rejected / ended session leaves
+// no connection, no adjacency edge and hence no route behind - also when nothing else is connected.
+func runAdmitLastPeerScenario(col *trace.Collector, variant int) (hooks []verifhook.Record, viol []Violation, inconcl string) {
+	h0 := col.Len()
+	n, err := e1.NewNode("n1", e1.Opts{})
+	if err != nil {
+		return nil, nil, err.Error()
+	}
+	defer n.Stop()
+	vn := n.N.VerifName()
+	defer func() {
+		for _, r := range col.Since(h0) {
+			if r["n"] == vn {
+				hooks = append(hooks, r)
+			}
+		}
+	}()
+	p, err := n.Attach("pl")
+	if err != nil {
+		return nil, nil, err.Error()
+	}
+	if err := p.Handshake("n1", 1, nil); err != nil {
+		return nil, nil, "last-peer scenario: handshake: " + err.Error()
+	}
+	if !n.WaitTable(map[string]string{"pl": "pl"}, 20*time.Second) {
+		return nil, nil, "last-peer scenario: the only neighbour never became a route"
+	}
+	what := "was rejected (cost mismatch)"
+	if variant == 0 {
+		_ = p.SendRoute(peer.RoutingUpdate{NodeID: "pl", UpdateID: fmt.Sprintf("last-%d", variant), UpdateEpoch: p.Epoch, UpdateSequence: 50, Connections: map[string]float64{"n1": 3}, ForwardingNode: "pl"})
+	} else {
+		what = "went away"
+		p.Close()
+	}
+	if !p.WaitEOF(20 * time.Second) {
+		return nil, nil, "last-peer scenario: the session did not end"
+	}
+	dl := time.Now().Add(15 * time.Second)
+	for {
+		st := n.N.Status()
+		if len(st.RoutingTable) == 0 && len(st.Connections) == 0 {
+			break
+		}
+		if time.Now().After(dl) {
+			viol = append(viol, Violation{"C11:route-left-behind-after-last-connection",
+				fmt.Sprintf("the node's only neighbour %s; 15 s later the node still has connections %v and routes %v", what, st.Connections, st.RoutingTable),
+				map[string]any{"scenario": "last-peer", "variant": variant}})
+
+			break
+		}
+		time.Sleep(10 * time.Millisecond)
+	}
+	st := n.N.Status()
+	costs := map[string]float64{}
+	for d := range st.RoutingTable {
+		if c, err := n.N.PathCost(d); err == nil {
+			costs[d] = c
+		}
+	}
+	cm := map[string]float64{}
+	for _, c := range st.Connections {
+		cm[c.NodeID] = c.Cost
+	}
+	verifhook.Emit(vn, "h_status", "conns", cm, "table", st.RoutingTable, "costs", costs, "known", st.KnownConnectionCosts)
+
+	return nil, viol, ""
+}
